@@ -27,7 +27,7 @@ def QR(mat):
     Q,R = tn.linalg.qr(mat)
     if not (bool(tn.isfinite(Q).all()) and bool(tn.isfinite(R).all())) and bool(tn.isfinite(mat).all()):
         # the LAPACK driver used by torch can return inf / nan for (complex64) matrices with tiny entries: use numpy
-        Qn, Rn = np.linalg.qr(mat.detach().cpu().numpy())
+        Qn, Rn = np.linalg.qr(mat.detach().cpu().resolve_conj().resolve_neg().numpy())
         Q, R = tn.tensor(Qn, dtype=mat.dtype, device=mat.device), tn.tensor(Rn, dtype=mat.dtype, device=mat.device)
     return Q, R
     
@@ -50,7 +50,10 @@ def SVD(mat):
             s = s.to(v.dtype)
             return u, s, v
         except:
-            u, s, v = np.linalg.svd(mat.numpy(),full_matrices=False)
+            if not (mat.is_floating_point() or mat.is_complex()):
+                # integer / bool data: torch's error stands (the factors cannot be stored in the dtype of the data)
+                raise
+            u, s, v = np.linalg.svd(mat.detach().cpu().resolve_conj().resolve_neg().numpy(),full_matrices=False)
             return tn.tensor(u, dtype = mat.dtype, device = mat.device), tn.tensor(s, dtype = mat.dtype, device = mat.device), tn.tensor(v, dtype = mat.dtype, device = mat.device)
     else:
         try:    
@@ -60,7 +63,10 @@ def SVD(mat):
             s = s.to(v.dtype)
             return  v.t(), s, u.t()
         except:
-            u, s, v = np.linalg.svd((mat.t()).numpy(),full_matrices=False)
+            if not (mat.is_floating_point() or mat.is_complex()):
+                # integer / bool data: torch's error stands (the factors cannot be stored in the dtype of the data)
+                raise
+            u, s, v = np.linalg.svd((mat.t()).detach().cpu().resolve_conj().resolve_neg().numpy(),full_matrices=False)
             return  tn.tensor(v.T, dtype = mat.dtype, device = mat.device), tn.tensor(s, dtype = mat.dtype, device = mat.device), tn.tensor(u.T, dtype = mat.dtype, device = mat.device)
     # u, s, v = tn.linalg.svd(mat,full_matrices=False)
     # return u, s, v
@@ -216,9 +222,9 @@ def round_tt(tt_cores,R,eps,Rmax,is_ttm=False):
         
         U, S, V = SVD(core_now)
         if S.is_cuda:
-            r_now = min([Rmax[i],rank_chop(S.cpu().numpy(),_norm2(S).cpu().numpy()*eps)])
+            r_now = min([Rmax[i],rank_chop(S.detach().cpu().numpy(),_norm2(S).detach().cpu().numpy()*eps)])
         else:
-            r_now = min([Rmax[i],rank_chop(S.numpy(),_norm2(S).numpy()*eps)])
+            r_now = min([Rmax[i],rank_chop(S.detach().numpy(),_norm2(S).detach().numpy()*eps)])
     
         U = U[:,:r_now]
         S = S[:r_now]
@@ -407,7 +413,7 @@ def to_tt(A,N=None,eps=1e-14,rmax=100,is_sparse=False):
       
         # tme = datetime.datetime.now()
         # choose the rank according to eps tolerance
-        r1 = rank_chop(s.cpu().numpy(), ep*_norm2(s).cpu().numpy())
+        r1 = rank_chop(s.detach().cpu().numpy(), ep*_norm2(s).detach().cpu().numpy())
         r1 = min([r1,rmax[i+1]])
         
         u = u[:,:r1]
